@@ -113,6 +113,37 @@ CLAIMED["C01"] = dict(
     note="Trusted: Coq kernel + vm_compute; py/C01_extract.py; stage soundness is the content of C02-C10, C15, C17, C23 (hypotheses of C01_pipeline_sound); assumed stages: apply_coordinate_derivatives, CoefficientSplitter, do_replace_functions; end-to-end forms are single-integral cell/exterior-facet forms on affine simplices (interval, triangle; tetrahedron and immersed triangle in the thorough tier).",
     design="0.1/C01")
 
+CLAIMED["C14"] = dict(
+    technique="Coq proof by induction over all expressions: a Gallina model of ArityChecker (dispatch table + one function per handler) accepts only integrands whose denotation is (conjugate-)linear in each argument number and contains exactly the declared arguments; dispatch table regenerated from the source with ast on every run; arity tuple and verdict of the real checker compared with the model on generated integrands by vm_compute; numeric multilinearity oracle on every accepted integrand",
+    text="Props/C14_{model,sound}.v: for every expression, algebra and environment, if the model of check_integrand_arity accepts (and the decidable guard holds) the denotation is additive and (conjugate-)homogeneous in each argument number and contains exactly the declared arguments (C14_sound_partial, C14_args_exact), with rejection corollaries for a + c, a*a, f(a), c/a and closed refutations for the two known findings. The ArityChecker class body is parsed with ast on every run and its dispatch table compared class by class with the model's; ~400 (quick) / 3200 (thorough) probes and generated integrands (real/complex mode, parts, wrong declared argument lists) must get the same arity tuple and verdict from the real checker and the model, and every accepted integrand is tested numerically for multilinearity.",
+    note="Trusted: Coq kernel + vm_compute; serializer; conj involutive morphism, constant scalars, pointwise conditionals are theorem hypotheses; handler bodies tied by sampled structural agreement, dispatch by T1; CellAvg/FacetAvg only in the dispatch table. 2 known findings.",
+    design="0.1/C14")
+CLAIMED["C16"] = dict(
+    technique="Coq proof: inclusion-exclusion parts of an affine-bilinear integrand are its bilinear/linear/constant parts, uniqueness, action/energy/adjoint algebra (any algebra); traces of the real lhs/rhs/system/functional/action/adjoint/energy_norm on a form zoo, each result integrand proved equal to the semantic part of the input for all terminal values",
+    text="Props/C16_algebra.v proves the part algebra (F = lhs - rhs + functional, uniqueness of the decomposition, bilinearity/linearity, action/energy/adjoint identities) for every algebra. On every run the real system/lhs/rhs/functional/action/adjoint/energy_norm and compute_form_* run on a zoo of 26 (quick) / 46 (thorough) forms (0-2 arguments, scalar/vector/mixed spaces, quotients, conditionals, list tensors, variables, restrictions, several measures and metadata); integrals are matched by (domain, type, subdomain id, metadata) and Coq proves for all terminal values that each result integrand equals the inclusion-exclusion part / substituted / conjugate-swapped original, the substitutions being applied while serialising the input.",
+    note="Trusted: Coq kernel + vm_compute; serializer-level substitution; no Gallina model of PartExtracter (traces only); assumes D 0 = 0, conj an involutive morphism, non-zero argument-free denominators. 1 known finding (adjoint with MixedFunctionSpace parts).",
+    design="0.1/C16")
+CLAIMED["C22"] = dict(
+    technique="Coq proof: partition/independence theorems for any number of sub-spaces over an arbitrary UFL algebra; traces of the real extract_blocks on generated mixed forms (each block = original integrand under the zero-padded embedding of one test and one trial sub-function, and these sum to the form); structural correspondence of FormSplitter.argument with the Gallina model",
+    text="Props/C22_blocks.v proves for any number of sub-spaces and any additive integrand that the blocks under the zero-padded embeddings partition the form and that each block depends only on its own sub-functions, and that the ListTensor built by FormSplitter.argument denotes the embedding. On every run the real extract_blocks (all blocks, row, single block; both replace_argument modes) runs on generated linear/bilinear forms over MixedElement spaces with 2-4 (nested, vector, tensor) sub-elements and MixedFunctionSpace with grad/div/jump/avg/restrictions on dx/ds/dS; Coq proves for all values that each block equals the original under the embedding, absent blocks are provably zero, and the blocks sum to the form; each block is checked to mention only its own sub-function.",
+    note="Trusted: Coq kernel + vm_compute; serializer-level substitution; additivity of the integrand is a hypothesis of the hand theorems (C14); indexed/restricted handlers covered by traces only. 3 known findings on the MixedElement all-blocks/row API.",
+    design="0.1/C22")
+CLAIMED["C18"] = dict(
+    technique="Coq: Gallina model of SumDegreeEstimator with an inductive soundness theorem over den in any UFL algebra with a degree filtration; ast->Gallina translation of the handler table; vm_compute correspondence; exact-jet true-degree oracle",
+    text="Props/C18_{model,sound,poly}.v: a faithful model of SumDegreeEstimator; C18_sound_partial proves by induction, for every polynomial-fragment expression satisfying the decidable guard, every algebra with a degree predicate obeying the degree laws, and every environment whose terminal components are bounded by the degree of the sub-element owning that physical component, that the estimate bounds the degree of every component; the unguarded statement is refuted (symmetric element). All 63 handlers are translated from the source with ast on every run and proved equal to the model's table; ~270 (quick) / 2600 (thorough) generated integrands over mixed/nested/symmetric/Piola/enriched elements must get the model's estimate from the real estimate_total_polynomial_degree and attach_estimated_degrees, and the true degree from exact polynomial jets is compared on every polynomial case.",
+    note="Trusted: Coq kernel + vm_compute; the ast translator; degree laws and the per-component environment bound are Section hypotheses (proved for univariate Z-polynomials only); tensor-product-cell tuple degrees not covered. 1 known finding (indexed walks reference sizes with the physical index).",
+    design="0.1/C18")
+CLAIMED["C23"] = dict(
+    technique="Coq hand model of CheckComparisons/ComplexNodeRemoval with unbounded induction theorems; ast + live dispatch tables; vm_compute correspondence of verdict, output tree and nodetype; value lemmas on traces; complex numeric oracle",
+    text="Props/C23_*.v: for all expressions, accepted comparisons/min/max are rebuilt with Real(.) operands, rejection happens exactly when an ordering site has a complex-typed operand, real-mode removal rejects exactly Imag and complex literals and leaves no Conj/Real/Imag; on the fragment without compound tensor nodes the checked expression keeps its value, non-complex type implies zero imaginary part, and real-mode removal preserves the value for real data. Both classes' handler tables are matched against the source with ast each run; 600 (quick) / 10000 (thorough) generated integrands go through the real do_comparison_check and remove_complex_nodes and verdict, output tree (modulo commutative operand order) and node type must equal the model's; value obligations are proved on traced cases.",
+    note="Trusted: Coq kernel + vm_compute; reals closed under the stated algebra laws; the comparator modulo operand order; termination not modelled. 2 known findings.",
+    design="0.1/C23")
+CLAIMED["C24"] = dict(
+    technique="Coq: hand model py_eval of the evaluate methods with an inductive soundness theorem against den; ast rule table + normal forms; exact Fraction differential runs checked as vm_compute Examples",
+    text="Props/C24_{model,inst}.v: py_eval models the evaluate methods (component passing, index_values StackDict push/pop, derivatives tuples); C24_eval_sound proves by mutual induction that whenever py_eval returns a value it is den of the expression at that component (derivatives iterated), for every algebra, mapping, component and index stack; totality is refuted for vector-valued conditionals. 19 straight-line evaluate methods are translated with ast into a rule table compared by reflexivity and 29 loop/branch methods are pinned to their normalised body on every run; 600 (quick) / 6000 (thorough) exact Fraction evaluations of the real e(x, mapping) (including callables taking derivatives and reused indices) must equal the model's result.",
+    note="Trusted: Coq kernel + vm_compute; Python arithmetic / math functions return the algebra's value when they return (hypotheses); float coercions compared to 1e-9; complex values and compound operators before lowering not covered. 2 known findings.",
+    design="0.1/C24")
+
 REASON_PENDING = "model not finished in this revision; not claimed rather than claimed with a non-proof check"
 
 
